@@ -1,0 +1,65 @@
+//go:build verif
+
+package avro
+
+import "sync/atomic"
+
+// Verification hook points: places between critical sections where a test
+// harness may force a garbage collection, yield, or record an event. Only
+// compiled with -tags verif.
+const (
+	vpMapReadAfterNew = iota
+	vpMapReadBeforeAssign
+	vpMapWriteInLoop
+	vpPtrReadAfterNew
+	vpArrayReadAfterResize
+	vpArrayReadAfterItem
+	vpReadFileBeforeCallback
+	vpReadFileAfterCallback
+	vpReadFileAfterBlock
+	vpBankGet
+	vpBankBeforePut
+	vpBankAfterGrow
+	vpBufExtract
+	vpRegistryAfterLookup
+	vpSchemaRegistryAfterLookup
+	vpCount
+)
+
+// VerifPointNames names the hook points, indexed by id.
+var VerifPointNames = [vpCount]string{
+	"mapRead.afterNew", "mapRead.beforeAssign", "mapWrite.inLoop", "ptrRead.afterNew",
+	"arrayRead.afterResize", "arrayRead.afterItem", "readFile.beforeCallback", "readFile.afterCallback",
+	"readFile.afterBlock", "bank.get", "bank.beforePut", "bank.afterGrow", "buf.extract",
+	"registry.afterLookup", "schemaRegistry.afterLookup",
+}
+
+var (
+	verifHook atomic.Pointer[func(int)]
+	verifHits [vpCount]atomic.Uint64
+)
+
+// SetVerifHook installs (or, with nil, removes) the function called at every hook point.
+func SetVerifHook(f func(id int)) {
+	if f == nil {
+		verifHook.Store(nil)
+		return
+	}
+	verifHook.Store(&f)
+}
+
+// VerifHits returns how often each hook point has been reached.
+func VerifHits() []uint64 {
+	out := make([]uint64, vpCount)
+	for i := range out {
+		out[i] = verifHits[i].Load()
+	}
+	return out
+}
+
+func verifPoint(id int) {
+	verifHits[id].Add(1)
+	if f := verifHook.Load(); f != nil {
+		(*f)(id)
+	}
+}
